@@ -300,7 +300,44 @@ def run(db: DB, rep: Report) -> None:
     # ---- L7 / L8: the wrappers hand the text to the grammar and return its tree ---
     rep.rule("L7", "the text handed to each Lark parser is the caller's text, unmodified", 5)
     rep.rule("L8", "every result of a parse wrapper is the tree the grammar produced", 5)
+    rep.rule("L9", "the raw text is read by the grammar only", 5)
+    rep.rule("L10", "lark trees/tokens are constructed by the grammars only", 1)
     _check_wrappers(db, rep)
+    # every specification string of the mapping goes through its grammar
+    mp = db.func("teaal.parse.mapping.Mapping.__init__")
+    for api, want in (("parse_ranks", 1), ("parse_partitioning", 1), ("parse", 1)):
+        cs = [n for n in walk_no_nested(mp.node) if isinstance(n, ast.Call) and isinstance(n.func, ast.Attribute)
+              and n.func.attr == api and norm(n.func.value) in ("PartitioningParser", "SpaceTimeParser")]
+        ok = len(cs) >= want and all(not [t for t, pol in paths.guards(c, stop=mp.node)
+                                         if any(isinstance(x, ast.Name) and x.id in
+                                                {a.id for a in ast.walk(c.args[0]) if isinstance(a, ast.Name)}
+                                                for x in ast.walk(t))] for c in cs)
+        rep.check("L10", ok, db.loc(cs[0]) if cs else db.loc(mp.node), mp.short, "mapping-uses:" + api,
+                  "Mapping parses every entry with %s, unconditionally on the entry's text" % api,
+                  "Mapping.__init__ does not hand every entry to %s (or does so only for some spellings of "
+                  "the entry)" % api)
+
+    # ---- L11: terminals accept what the property's strings need ---------------------
+    rep.rule("L11", "NUMBER accepts every unsigned integer literal, NAME exactly identifiers", 7)
+    import re as _re
+    for gid, lk in compiled.items():
+        for t in lk.terminals:
+            if t.name == "NUMBER":
+                rx = _re.compile(t.pattern.to_regexp())
+                bad = [x for x in ("0", "7", "10", "015", "256") if not rx.fullmatch(x)]
+                rep.check("L11", not bad, db.loc(texts[gid][1]), gid, "terminal:%s.NUMBER" % gid,
+                          "%s grammar: NUMBER accepts 0, 7, 10, 015, 256" % gid,
+                          "the NUMBER terminal of the %s grammar (%s) rejects %s: sizes, coefficients or "
+                          "instance bounds that were legal text are no longer parsed" %
+                          (gid, t.pattern.to_regexp()[:40], bad))
+            if t.name == "NAME":
+                rx = _re.compile(t.pattern.to_regexp())
+                bad = [x for x in ("K", "K1", "_x", "MK00", "a") if not rx.fullmatch(x)] + \
+                      [x for x in ("2K", "K M", "K-1", "", " K") if rx.fullmatch(x)]
+                rep.check("L11", not bad, db.loc(texts[gid][1]), gid, "terminal:%s.NAME" % gid,
+                          "%s grammar: NAME accepts identifiers and nothing else" % gid,
+                          "the NAME terminal of the %s grammar (%s) mis-classifies %s" %
+                          (gid, t.pattern.to_regexp()[:40], bad))
 
     # ---- L6 -----------------------------------------------------------------
     rep.rule("L6", "NAME[0..N] stores int(N)+1 instances; NAME stores 1", 2)
@@ -359,6 +396,40 @@ def _check_wrappers(db: DB, rep: Report) -> None:
                                                           and not (isinstance(r.value, ast.Name) and r.value.id in tree_names)]))
     if n_wrap < 5:
         raise AnalysisError("only %d parse wrappers found (floor 5)" % n_wrap)
+    # L9: the text is consumed by the grammar only - no other read of the text parameter
+    for gid, (modname, clsname) in GRAMMARS.items():
+        c = db.cls(modname + "." + clsname)
+        lark_attrs = {k for k, v in c.class_attrs.items()
+                      if isinstance(v, ast.Call) and norm(v.func).split(".")[-1] == "Lark"}
+        for nm, f in sorted(c.methods.items()):
+            calls = [n for n in walk_no_nested(f.node) if isinstance(n, ast.Call) and
+                     isinstance(n.func, ast.Attribute) and n.func.attr == "parse" and
+                     isinstance(n.func.value, ast.Attribute) and n.func.value.attr in lark_attrs]
+            if not calls or not f.call_params:
+                continue
+            text = f.call_params[0]
+            other = [n for n in walk_no_nested(f.node) if isinstance(n, ast.Name) and n.id == text and
+                     isinstance(n.ctx, ast.Load) and not any(n is a for c_ in calls for a in c_.args)]
+            rep.check("L9", not other, db.loc(other[0]) if other else db.loc(f.node), f.short,
+                      "text-only-to-grammar:" + f.short,
+                      "%s uses its text parameter only as the grammar's input" % f.short,
+                      "%s inspects its raw text parameter '%s' besides handing it to the grammar (at %s): the "
+                      "result then depends on the spelling of the text (whitespace, brackets) and not only on "
+                      "the tree the grammar produced" % (f.short, text, db.loc(other[0]) if other else "?"))
+    # L10: parse trees are produced by the grammars only
+    allowed_token = "teaal.parse.equation.EquationParser.parse"
+    for g in db.functions.values():
+        for n in walk_no_nested(g.node):
+            if isinstance(n, ast.Call) and isinstance(n.func, ast.Name) and n.func.id in ("Tree", "Token"):
+                ent = g.module.ns.get(n.func.id)
+                if not (ent and ent[0] == "ext" and "lark" in str(ent[1])):
+                    continue
+                ok = n.func.id == "Token" and g.qualname == allowed_token
+                rep.check("L10", ok, db.loc(n), g.short, "constructed:%s@%s" % (n.func.id, g.short),
+                          "%s constructed in %s (the documented coefficient rewrite)" % (n.func.id, g.short),
+                          "%s builds a lark %s by hand (%s): that part of the specification is not parsed by "
+                          "its grammar, so text outside the grammar is accepted and whitespace is kept" %
+                          (g.short, n.func.id, norm(n)[:60]))
 
 
 def _else_absorbs(db: DB, gid: str, covered: Set[str]) -> Optional[str]:
@@ -569,6 +640,14 @@ def mutants(db: DB):
           "            if num.data == \"pos\":\n                itimes.children[0] = num.children[0]\n\n            # Otherwise, it is a negative\n            else:\n                pos = num.children[0]\n                assert isinstance(pos, Token)\n                itimes.children[0] = Token(\"NUMBER\", str(-1 * int(pos)))",
           "            if num.data == \"neg\":\n                sign = -1\n            pos = num.children[0]\n            itimes.children[0] = Token(\"NUMBER\", str(sign * int(pos)))",
           "L5"),
+        M("empty-rank cleanup only for the tight spelling", eq,
+          "        for ranks in tree.find_data(\"ranks\"):\n            if ranks.children == [None]:",
+          "        for ranks in tree.find_data(\"ranks\"):\n            if \"[]\" in equation and ranks.children == [None]:", "L9"),
+        M("stamps without a dot bypass the grammar", "teaal/parse/mapping.py",
+          "                            spacetime[tensor][stamp].append(\n                                SpaceTimeParser.parse(rank))",
+          "                            spacetime[tensor][stamp].append(\n                                SpaceTimeParser.parse(rank) if \".\" in rank else Tree(\"pos\", [rank]))",
+          "L10"),
+        M("NUMBER cannot be zero", lv, "        %import common.NUMBER -> NUMBER\n", "        NUMBER: /[1-9][0-9]*/\n", "L11"),
         M("N+1 -> N", "teaal/parse/arch.py", 'tree["num"] = int(num) + 1', 'tree["num"] = int(num)', "L6"),
         M("single -> 0", "teaal/parse/arch.py", 'tree["num"] = 1', 'tree["num"] = 0', "L6"),
         M("multiple reads name child", "teaal/parse/arch.py", "num = name_tree.children[1]",
